@@ -132,7 +132,8 @@ reg(
 reg(
   "C39",
   "property-based differential testing (Hypothesis) against mujoco.mj_contactForce fed with MJWarp's solved forces",
-  "Random contact scenes, all condims, both cones, adhesion; every contact's wrench in contact and world frame compared (2e-4); ids >= nacon must not be written.",
+  "Random contact scenes, all condims, both cones, adhesion actuators and passive geom/pair contact adhesion; every contact's wrench in the contact frame and rotated to the "
+  "world frame by MJWarp's own contact frame compared (2e-4); ids >= nacon must not be written.",
   "Worlds whose contact/row sets differ from MuJoCo's are skipped (counted).",
 )
 
